@@ -194,3 +194,80 @@ Definition userinfo_bad (i : idp) (k : token * Z * Z * option bs) : bool :=
 Definition token_bad (i : idp) (k : treq * Z * Z * bool) : bool :=
   let '(r, t0, t1, obs) := k in
   negb (Bool.eqb (released (token_endpoint i t0 r)) obs || Bool.eqb (released (token_endpoint i t1 r)) obs).
+
+(* ---------------------------------------------------------------- the audience dimension *)
+
+(* A flow: an authorization request with an "audience" parameter (absent / under the client's domains /
+   foreign / several values; for clients with and without allow_client_chose_audiences) sent to the real
+   authorization endpoint - compared as an [authorize_bad] case of its own -, then the redemption of the
+   code it returned.  The case carries the token request (with the code exactly as observed), the clock
+   readings around it, and what came back: None = refused, Some (claims of the ID token, claims of the
+   access token, userinfo's answer for that access token). *)
+Definition flow := (treq * Z * Z * option (claimset * claimset * option bs))%type.
+
+Definition flow_bad (i : idp) (k : flow) : bool :=
+  let '(r, t0, t1, obs) := k in
+  let chk (now : Z) :=
+    match token_endpoint i now r, obs with
+    | Release idt act, Some (idc, acc, ui) =>
+        claims_eqb ["iat"%string] (t_claims idt) idc && claims_eqb ["iat"%string] (t_claims act) acc &&
+        match c_userinfo (srv i) now act, ui with
+        | Some u, Some u' => bs_eqb u u'
+        | None, None => true
+        | _, _ => false
+        end
+    | Refuse _, None => true
+    | _, _ => false
+    end in
+  negb (chk t0 || chk t1).
+
+(* the client id a token request authenticates as (header first, else the body) *)
+Definition caller_id (r : treq) : bs :=
+  match tr_basic r with Some (id, _) => id | None => tr_form_client r end.
+
+(* The property's own predicate on an OBSERVED ID token (the conclusion of c12_idtoken_sole_audience):
+   its "aud" member is the one-element list holding the client the request authenticated as. *)
+Definition obs_sole_audience (client : bs) (idc : claimset) : bool :=
+  match lookup "aud" idc with
+  | Some (VList [x]) => bs_eqb x client
+  | _ => false
+  end.
+
+(* ... and on an observed access token (the conclusion of c12_access_audience): the audience list is
+   empty or contains the userinfo URL *)
+Definition obs_access_audience (st : server) (acc : claimset) : bool :=
+  match rd_list "aud" acc with
+  | Some [] => true
+  | Some l => mem_bs (s_userinfo st) l
+  | None => false
+  end.
+
+(* tokens were released and the observed ID token names more, less or another audience than the client *)
+Definition flow_violating (i : idp) (k : flow) : bool :=
+  let '(r, _, _, obs) := k in
+  match obs with
+  | Some (idc, _, _) => negb (obs_sole_audience (caller_id r) idc)
+  | None => false
+  end.
+
+Definition flow_violating_access (i : idp) (k : flow) : bool :=
+  let '(_, _, _, obs) := k in
+  match obs with
+  | Some (_, acc, _) => negb (obs_access_audience (srv i) acc)
+  | None => false
+  end.
+
+(* the indices of the mismatching cases on which the observation itself violates the predicate *)
+Definition violating_of {A} (bad viol : A -> bool) (l : list A) : list nat :=
+  KM.Base.Cases.mismatches (fun x => bad x && viol x) l.
+
+(* the same predicate on the released cases of the product; the product index is reported *)
+Definition release_violating_on (combos : list combo) (i : idp) (e : c12env) (t0 t1 : Z)
+           (l : list (nat * claimset * claimset * option bs)) : list nat :=
+  map (fun k => fst (fst (fst k)))
+      (filter (fun k => let '(n, idc, _, _) := k in
+                 release_bad_on combos i e t0 t1 k &&
+                 match nth_opt combos n with
+                 | Some combo => negb (obs_sole_audience (caller_id (req_of e combo)) idc)
+                 | None => false
+                 end) l).
